@@ -79,6 +79,7 @@ StacksTags == {s \in StacksAll : s.name \in {"TT", "Text", "ByTest", "E2O(Py27)"
                    "Multi(Tagger+a(Ext),TT)", "Multi(TFR(Ext),Py27)", "TFR(Multi(Py26,Ext))",
                    "E2S", "Tagger+a(E2S)", "Multi(E2S,Ext)", "TFR(E2S)", "E2SX", "Tagger+a(E2SX)"}}
 
+StText == {s \in StacksAll : s.name = "Text"}
 StacksSetFF == {s \in StacksAll : CanSetFFKind(s.nodes[1].k)}
 StacksTimes == {s \in StacksAll : \E i \in DOMAIN s.nodes : s.nodes[i].k \in {"ByTest", "TFR", "Ext", "E2S", "Tw"}}
 
@@ -86,6 +87,7 @@ StacksTimes == {s \in StacksAll : \E i \in DOMAIN s.nodes : s.nodes[i].k \in {"B
 Out13 == {<<"success", "none">>, <<"success", "det">>, <<"error", "exc">>, <<"error", "det">>,
           <<"failure", "exc">>, <<"failure", "det">>, <<"skip", "reason">>, <<"skip", "det">>, <<"skip", "detr">>,
           <<"xfail", "exc">>, <<"xfail", "det">>, <<"uxsuccess", "none">>, <<"uxsuccess", "det">>}
+Out5 == {<<"success", "none">>, <<"error", "exc">>, <<"failure", "det">>, <<"skip", "reason">>, <<"uxsuccess", "none">>}
 Out6 == {<<"success", "none">>, <<"error", "exc">>, <<"failure", "det">>, <<"skip", "reason">>,
          <<"xfail", "det">>, <<"uxsuccess", "none">>}
 Out3 == {<<"success", "none">>, <<"failure", "det">>, <<"uxsuccess", "det">>}
